@@ -659,6 +659,8 @@ package io
 //@   prop C14
 //@   havoc
 //@   flag typeassert=panic
+//@   requires [cached_field_tables_are_not_nil] forall(k, ghost.sm_has[addr(structFieldMapCache)][k] ==> as(ghost.sm_val[addr(structFieldMapCache)][k], map[string]FieldAccessor) != nil)
+//@   modifies ghost.sm_has[*], ghost.sm_val[*]
 //@   atcall registerNamedStructDecoder [write_locked_when_it_becomes_visible] ghost.held[addr(decoder.RWMutex)] == 1
 //@   ensures [field_table_assigned_and_lock_released] result != nil && result.fields != nil && ghost.held[addr(result.RWMutex)] == 0
 
@@ -824,5 +826,8 @@ package io
 //@   prop C04
 //@   flag typeassert=panic
 //@   havoc
+//@   requires [cached_field_tables_are_not_nil] forall(k, ghost.sm_has[addr(structFieldMapCache)][k] ==> as(ghost.sm_val[addr(structFieldMapCache)][k], map[string]FieldAccessor) != nil)
 //@   modifies ghost.sm_has[*], ghost.sm_val[*]
 //@   loop 1 invariant forall(k, 0, len(fields), fields[k].Type != nil)
+//@   atcall Store [only_a_fresh_table_is_cached] as(arg2, map[string]FieldAccessor) != nil
+//@   ensures [a_field_table_is_never_nil] result != nil
